@@ -166,6 +166,51 @@ def rule_accessors(ctx):
         loops = _self_loops(fi)
         elems = {e for (_, e, _, _) in loops}
         site = "%s#lookup" % fi.qual
+        if not loops:
+            # first match taken with next(<generator expression over self>, None): the relation between key and item is checked,
+            # the first-match / action shape is not modelled in this form
+            gens = [g for g in ast.walk(fi.node) if isinstance(g, (ast.GeneratorExp, ast.ListComp)) and len(g.generators) == 1
+                    and "self" in {n_.id for n_ in ast.walk(g.generators[0].iter) if isinstance(n_, ast.Name)}
+                    and any(isinstance(c_, ast.Call) and isinstance(c_.func, ast.Attribute) and c_.func.attr == "mnemonic_compare"
+                            for i_ in g.generators[0].ifs for c_ in ast.walk(i_))]
+            if gens:
+                gprob = list(_range_test_problems(cls, fi, key, mname))
+                for g in gens:
+                    gel = set(target_names(g.generators[0].target))
+                    for c_ in [c_ for i_ in g.generators[0].ifs for c_ in ast.walk(i_) if isinstance(c_, ast.Call)
+                               and isinstance(c_.func, ast.Attribute) and c_.func.attr == "mnemonic_compare"]:
+                        args = [ast.unparse(a_) for a_ in c_.args]
+                        okc = len(args) == 2 and any(a_ in (key, key + ".mnemonic") and any(b_ == e_ + ".mnemonic" for e_ in gel)
+                                                     for a_, b_ in ((args[0], args[1]), (args[1], args[0])))
+                        if not okc:
+                            gprob.append((c_, "compares %s: the lookup must match the key against item.mnemonic (the session mnemonic) only"
+                                          % ", ".join(args)))
+                    if not isinstance(g.generators[0].iter, ast.Name) and not (isinstance(g.generators[0].iter, ast.Call) and isinstance(
+                            g.generators[0].iter.func, ast.Name) and g.generators[0].iter.func.id == "enumerate" and len(g.generators[0].iter.args) == 1
+                            and not g.generators[0].iter.keywords):
+                        gprob.append((g, "the lookup does not scan self front to back (%s)" % unparse(g.generators[0].iter)))
+                # the position found may be 0: it is tested with `is None`, never for truthiness
+                for a_ in walk_shallow(fi.node):
+                    if isinstance(a_, ast.Assign) and len(a_.targets) == 1 and isinstance(a_.targets[0], ast.Name) and isinstance(a_.value, ast.Call) \
+                            and isinstance(a_.value.func, ast.Name) and a_.value.func.id == "next" and any(g in ast.walk(a_.value) for g in gens):
+                        pv = a_.targets[0].id
+                        yields_index = any(isinstance(g.elt, ast.Name) and isinstance(g.generators[0].target, ast.Tuple)
+                                           and g.generators[0].target.elts and isinstance(g.generators[0].target.elts[0], ast.Name)
+                                           and g.elt.id == g.generators[0].target.elts[0].id for g in gens)
+                        for t_ in [x.test for x in walk_shallow(fi.node) if isinstance(x, (ast.If, ast.While, ast.IfExp))]:
+                            for c_ in (t_.values if isinstance(t_, ast.BoolOp) else [t_]):
+                                inner = c_.operand if isinstance(c_, ast.UnaryOp) and isinstance(c_.op, ast.Not) else c_
+                                if isinstance(inner, ast.Name) and inner.id == pv and yields_index:
+                                    gprob.append((t_, "`%s` tests the position found for truthiness: position 0 (the first item) counts as "
+                                                      "'not found'" % unparse(t_)))
+                if gprob:
+                    for node_, msg_ in gprob:
+                        ctx.bad("SI.ACCESSORS", site, fi, node_, "%s: %s" % (mname, msg_))
+                else:
+                    ctx.undecided("SI.ACCESSORS", site, fi, fi.node, "%s takes its first match with next(<generator over self>): the key is "
+                                  "matched with mnemonic_compare against item.mnemonic; action and fall-through shape are not decided "
+                                  "in this form" % mname)
+                continue
         rels = _relations(fi, key, elems)
         cmp_rels = [r for r in rels if r[0] == "compare"]
         problems = list(_range_test_problems(cls, fi, key, mname))
@@ -660,6 +705,13 @@ def rule_suffix_after_insert(ctx):
                             # set_item: being under the key-match test is inherent
                             if mname == "set_item" and any(isinstance(c, ast.Call) and isinstance(c.func, ast.Attribute)
                                                            and c.func.attr == "mnemonic_compare" for c in ast.walk(t)):
+                                continue
+                            # ... also when the match was remembered in a variable (`position = next(<matches>, None)`)
+                            tn_ = {x.id for x in ast.walk(t) if isinstance(x, ast.Name)}
+                            if mname == "set_item" and any(isinstance(a_, ast.Assign) and any(isinstance(t_, ast.Name) and t_.id in tn_ for t_ in a_.targets)
+                                                           and any(isinstance(c, ast.Call) and isinstance(c.func, ast.Attribute)
+                                                                   and c.func.attr == "mnemonic_compare" for c in ast.walk(a_.value))
+                                                           for a_ in walk_shallow(fi.node)):
                                 continue
                             conds.add(unparse(t))
                 ctx.check(not conds, "SI.SUFFIX-AFTER-INSERT", "%s#renumber-unconditional" % fi.qual, fi, sub,
@@ -1448,3 +1500,50 @@ def rule_no_lookup_cache(ctx):
             ctx.ok("SI.NO-LOOKUP-CACHE", site, fi, fi.node, "%s reads no section state beyond mnemonic_transforms" % m,
                    nontrivial=m in ("__contains__", "__getitem__"))
     ctx.floor("SI.NO-LOOKUP-CACHE", 4)
+
+
+def rule_transforms_first(ctx):
+    """SI.TRANSFORMS-FIRST: a section that is read with case normalisation compares mnemonics case-insensitively - from the first
+    item on.  The flag (`section.mnemonic_transforms = True`) is set before any item is appended; set afterwards, the items were
+    grouped and numbered with exact comparison while they are looked up case-insensitively ('unknown' next to a blank mnemonic)."""
+    from sa.astutil import ordn
+    p = ctx.p
+    fi = p.func("reader.parse_header_items_section")
+    site = fi.qual + "#transforms-before-items"
+    stores = [a for a in walk_shallow(fi.node) if isinstance(a, ast.Assign) and any(
+        isinstance(t, ast.Attribute) and t.attr == "mnemonic_transforms" for t in a.targets)]
+    adds = [c for c in walk_shallow(fi.node) if isinstance(c, ast.Call) and isinstance(c.func, ast.Attribute) and c.func.attr in ("append", "insert", "extend")
+            and isinstance(c.func.value, ast.Name) and "section" in c.func.value.id]
+    if not stores or not adds:
+        ctx.undecided("SI.TRANSFORMS-FIRST", site, fi, fi.node, "no `section.mnemonic_transforms = ...` store / no append of items in %s" % fi.qual)
+        return
+    late = [a for a in stores if ordn(a) > min(ordn(c) for c in adds)]
+    ctx.check(not late, "SI.TRANSFORMS-FIRST", site, fi, late[0] if late else stores[0],
+              "the case-normalisation flag of the section is set before the first item is appended",
+              "`%s` comes after items were appended: duplicate and blank mnemonics were numbered with exact comparison, but are looked up "
+              "ignoring case, so two items can answer to one key" % (unparse(late[0]) if late else ""))
+
+
+def rule_deepcopy_memo(ctx):
+    """PK.MEMO: a `__deepcopy__(self, memo)` hands its memo on to every nested deepcopy.  Without it each element is copied with
+    a private memo: objects shared inside the original (two curves over one array, an item referenced twice) are no longer
+    shared in the copy, and the copy's behaviour under later in-place edits differs from the original's."""
+    p = ctx.p
+    n = 0
+    for q, fi in sorted(p.functions.items()):
+        if isinstance(fi.node, ast.Lambda) or fi.name != "__deepcopy__" or fi.cls is None:
+            continue
+        params = fi.params()
+        if len(params) < 2:
+            continue
+        memo = params[1]
+        for c in walk_shallow(fi.node):
+            if isinstance(c, ast.Call) and ast.unparse(c.func) in ("copy.deepcopy", "deepcopy"):
+                n += 1
+                passed = any(isinstance(a, ast.Name) and a.id == memo for a in c.args[1:]) or any(
+                    isinstance(k.value, ast.Name) and k.value.id == memo for k in c.keywords)
+                ctx.check(passed, "PK.MEMO", "%s#deepcopy(%s)" % (fi.qual, unparse(c.args[0])[:30] if c.args else "?"), fi, c,
+                          "the nested deepcopy is given the memo", "`%s` in %s copies without the memo `%s`: sharing between the elements "
+                          "(one array behind two curves) is lost in the copy" % (unparse(c), fi.qual, memo))
+    if n == 0:
+        ctx.undecided("PK.MEMO", "lasio#deepcopy-memo", None, 0, "no __deepcopy__ with nested copy.deepcopy calls")
